@@ -73,6 +73,13 @@ static void run_document_backend(Fixture& fx, const Entry& en, const std::string
             TypeChecker tc{doc}; doc.accept(tc); FeatureChecker fc{doc};
         }
     } catch (std::exception&) { outcome = "std::exception"; }
+    // whatever happened above, the next parse in this process (a fresh document and builder) behaves as in a fresh process
+    try {
+        Document d2; DocumentBuilder b2(d2);
+        parse_XTA("int fresh[3], fresh2;", &b2, nx, S_DECLARATION, "/f");
+        bool good = !d2.has_errors() && d2.get_globals().variables.size() == 2 && d2.get_globals().variables.front().uid.get_type().is_array() && d2.get_globals().variables.back().uid.get_type().is_integer();
+        vf_assert(good, "next-parse-in-the-process-unaffected");
+    } catch (std::exception&) { vf_assert(false, "next-parse-in-the-process-unaffected"); }
     vf_budget(-1);
     vf_note(outcome); vf_notei("errors", (long)doc.get_errors().size());
     assert_invariants(doc, !strcmp(outcome, "returned"));
